@@ -50,7 +50,7 @@ def _needed_budget(fields):
 
 
 def _gen_case(rng, tier):
-    fields = gm.gen_fields(rng, max_fields=8, max_file=(400 if tier == 'quick' else 8192))
+    fields = gm.gen_fields(rng, max_fields=8, max_file=(400 if tier == 'quick' else 8192), text_ctypes=gm.TEXT_CTYPES_NEUTRAL)
     blobs = []
     for f in fields:
         if 'filename' in f:
